@@ -259,6 +259,19 @@ func (e *Engine) typeByName(name string, pkg *types.Package) types.Type {
 			return types.NewPointer(el)
 		}
 		return nil
+	case len(name) > 2 && name[0] == '[' && name[1] >= '0' && name[1] <= '9':
+		j := strings.Index(name, "]")
+		if j < 0 {
+			return nil
+		}
+		var n int64
+		if _, err := fmt.Sscanf(name[1:j], "%d", &n); err != nil {
+			return nil
+		}
+		if el := e.typeByName(name[j+1:], pkg); el != nil {
+			return types.NewArray(el, n)
+		}
+		return nil
 	case strings.HasPrefix(name, "[]"):
 		if el := e.typeByName(name[2:], pkg); el != nil {
 			return types.NewSlice(el)
